@@ -7,33 +7,32 @@ Local Open Scope Z_scope.
 
 Definition is_local_acct (p : pool) (a : N) : Prop := In a (p_locals p).
 
-(** Post-condition of truncatePending (oracle class limit-pending): after every reorg run the pool is
-    within GlobalSlots unless every non-local account is within AccountSlots.  (The GlobalQueue half
-    is proved: C17_queue_limit_after_reorg_partial.)  Also open: a non-local account's queue is within
-    AccountQueue right after its own promotion run (oracle class limit-account-queue). *)
-Definition open_pending_limit_after_reorg : Prop :=
-  forall c p reset dirty, Inv p ->
-    let p' := run_reorg c p reset dirty in
+(** Post-condition of truncatePending (oracle class limit-pending) after a reorg run whose reset
+    REINJECTS transactions: proved without reinjection (C17_pending_limit_after_reorg_partial); with
+    it the proof's invariant is gone (C17_reset_with_reinjection_refuted), the statement itself is
+    not refuted. *)
+Definition open_pending_limit_with_reinjection : Prop :=
+  forall c p ch reinject, Inv p -> chain_nonneg ch -> 0 <= c_aslots (p_cfg p) ->
+    let p' := run_reorg c p (Some (ch, reinject)) [] in
     Z.of_nat (length (p_pending p')) <= c_gslots (p_cfg p') \/
     forall a, ~ is_local_acct p' a -> l_len (p_pending p') a <= c_aslots (p_cfg p').
 
-Definition open_account_queue_cap : Prop :=
-  forall p a, Inv p -> ~ is_local_acct p a ->
-    l_len (p_queue (promote_account p a)) a <= c_aqueue (p_cfg p).
+(** (Proved since: locals are exempt from price eviction - C17_local_flag_every_history,
+    C17_price_eviction_spares_locals, C17_setprice_spares_locals; AccountQueue cap -
+    C17_account_queue_cap; GlobalSlots/AccountSlots after a reorg run without reinjection -
+    C17_pending_limit_after_reorg_partial.) *)
 
-(** Locals are exempt from price eviction (oracle classes local-flag / local-evicted /
-    setprice-dropped): every transaction of a local account is flagged local in the index, and the
-    pool-full branch of add and SetGasPrice remove only transactions flagged remote. *)
-Definition open_local_flag : Prop :=
-  forall c0 cfg ch file cs ops, Forall op_ok ops ->
-    let p := run cs (new_pool c0 cfg ch file) ops in
-    forall t, In t (map fst (p_all p)) -> is_local_acct p (sender t) -> In (t, true) (p_all p).
-
-Definition open_price_eviction_spares_locals : Prop :=
-  forall o p t l p1 oe, Inv p -> make_room o p t l = (p1, oe) ->
-    forall x, In (x, true) (p_all p) -> In x (map fst (p_all p1)).
-
-(** reset with reinjected (reorged-out) transactions: add runs against the new state while the
-    pending lists still reflect the old one. *)
-Definition open_reset_with_reinjection : Prop :=
-  forall c p ch reinject, Inv p -> chain_nonneg ch -> Inv (run_reorg c p (Some (ch, reinject)) []).
+(** reset with reinjected (reorged-out) transactions: the full invariant is NOT preserved
+    (C17_reset_with_reinjection_refuted, known finding pending-gap-reinject).  What remains open is the
+    part of the invariant that does hold on every generated history: everything but gap-freeness
+    inside a pending run. *)
+Definition inv_but_gaps (p : pool) : Prop :=
+  NoDup (map key (p_pending p)) /\ NoDup (map key (p_queue p)) /\
+  (forall t, In t (map fst (p_all p)) <-> In t (p_pending p) \/ In t (p_queue p)) /\
+  NoDup (map t_id (map fst (p_all p))) /\
+  (forall t t', In t (p_pending p) -> In t' (p_queue p) -> key t <> key t') /\
+  (forall t, In t (p_pending p) -> st_nonce (p_chain p) (sender t) <= t_nonce t /\
+                                   cost t <= st_balance (p_chain p) (sender t) /\ t_gas t <= ch_gaslimit (p_chain p)) /\
+  (forall t, In t (p_queue p) -> st_nonce (p_chain p) (sender t) <= t_nonce t).
+Definition open_reset_with_reinjection_weak : Prop :=
+  forall c p ch reinject, Inv p -> chain_nonneg ch -> inv_but_gaps (run_reorg c p (Some (ch, reinject)) []).
